@@ -499,7 +499,7 @@ func GenBackupCycle(r *Rng, o EngineGenOpts, hist map[string]int) []string {
 	}
 	groups := 2 + r.Intn(2)
 	key := func(g, i int) string { return fmt.Sprintf("%02x%02x%02x", 0x6b, g, i) }
-	if r.Chance(1, 3) {
+	if r.Chance(1, 2) {
 		// the backup directory was a database before, and a finished merge of that database still waits beside it
 		cf := genCfg(r, o, hist)
 		cf.fsize = r.Pick(200, 700)
@@ -525,7 +525,7 @@ func GenBackupCycle(r *Rng, o EngineGenOpts, hist map[string]int) []string {
 	add("files")
 	// how the caller spells the destination, in both backups of the scenario: canonical, with a trailing separator,
 	// with "/./", with a doubled separator
-	style := r.Pick(0, 0, 1, 1, 2, 3)
+	style := r.Pick(0, 0, 1, 1, 1, 1, 2, 3)
 	backup := func() {
 		if style > 0 {
 			add("backup %s %d", bk, style)
